@@ -61,6 +61,7 @@ type Summary struct {
 	Restarts    int            `json:"child_restarts"`
 	WallS       float64        `json:"wall_s"`
 	PerSecond   float64        `json:"histories_per_s"`
+	YieldResume []yrRow        `json:"yield_resume"`
 }
 
 const (
@@ -308,6 +309,9 @@ func runBatch(cfg *batchCfg) *Summary {
 		defer mu.Unlock()
 		sum.Evaluations++
 		h, res := oc.h, oc.res
+		if res.YieldResume != nil {
+			sum.YieldResume = append(sum.YieldResume, *res.YieldResume)
+		}
 		if res.Nontrivial {
 			nt[h.contentHash()] = true
 			for _, w := range res.Why {
